@@ -63,7 +63,13 @@ namespace TrRouting
         for (const auto & schedule : schedules)
         {
           std::string serviceUuidStr = schedule.getServiceUuid();
-          auto & service  = services.at(uuidGenerator(serviceUuidStr));
+          auto serviceIte = services.find(uuidGenerator(serviceUuidStr));
+          if (serviceIte == services.end())
+          {
+            spdlog::error("Unknown service {} in schedules of line {}, ignoring the schedule", serviceUuidStr, boost::uuids::to_string(line.uuid));
+            continue;
+          }
+          auto & service  = serviceIte->second;
 
           const auto periods {schedule.getPeriods()};
           for (const auto & period : periods)
@@ -75,8 +81,27 @@ namespace TrRouting
               pathUuidStr  = capnpTrip.getPathUuid();
               tripUuid     = uuidGenerator(tripUuidStr);
               pathUuid     = uuidGenerator(pathUuidStr);
-              Path &path = paths.at(pathUuid);
-              
+              auto pathIte = paths.find(pathUuid);
+              if (pathIte == paths.end())
+              {
+                spdlog::error("Unknown path {} for trip {}, ignoring the trip", pathUuidStr, tripUuidStr);
+                continue;
+              }
+              Path &path = pathIte->second;
+
+              // A trip needs at least two stop times, no more than its path has nodes, and as many
+              // departure times and boarding flags as arrival times
+              nodeTimesCount = capnpTrip.getNodeArrivalTimesSeconds().size();
+              if (nodeTimesCount < 2 ||
+                  nodeTimesCount > path.nodesRef.size() ||
+                  capnpTrip.getNodeDepartureTimesSeconds().size() < nodeTimesCount ||
+                  capnpTrip.getNodesCanBoard().size() < nodeTimesCount ||
+                  capnpTrip.getNodesCanUnboard().size() < nodeTimesCount)
+              {
+                spdlog::error("Inconsistent stop times for trip {} on path {}, ignoring the trip", tripUuidStr, pathUuidStr);
+                continue;
+              }
+
               trips.emplace(tripUuid, Trip(tripUuid,
                                            line.agency,
                                            line,
@@ -130,6 +155,11 @@ namespace TrRouting
       {
         // TODO Do something about faulty cache files?
         spdlog::error("-- Error reading line cache file -- {}: {}", cacheFilePath, e.getDescription().cStr());
+      }
+      catch (const std::exception& e)
+      {
+        // e.g. a uuid that is not a uuid: the rest of this line's schedules is ignored
+        spdlog::error("-- Error in line cache file -- {}: {}", cacheFilePath, e.what());
       }
 
       close(fd);
